@@ -764,7 +764,7 @@ def metamorphic(ctx: Ctx, exe, fx, cases, budget_fail=6):
                 check_lookup_misses(ctx, new, case)
                 if len(kinds) == 1 or kinds == SINGLE_KINDS:
                     doc_correspondence(ctx, exe, fx, new, f"{src}~{'+'.join(kinds)}", case, predict_from=orig if not fail else None)
-                if "order" in kinds and len(kinds) == 1 and not fail:
+                if "perm" in kinds and len(kinds) == 1 and not fail:
                     edit_after_read(ctx, source_path(tmp, src), dst, case)
                 if "order" in kinds or "form" in kinds:
                     try:
@@ -934,6 +934,14 @@ def replay(path: str) -> int:
                 orig, new, pack, msg, dst = run_case(tmp, case["src"], case["kinds"], case["seed"])
                 if msg is None and new is not None and "key" in case:
                     msg = _miss_msg(new, case)
+                if msg is None and new is not None and d.get("signature") == "layout-dependent:edit-after-read":
+                    sub = common.Ctx("C06", "quick", 0, LEVEL)
+                    try:
+                        edit_after_read(sub, source_path(tmp, case["src"]), dst, case)
+                        if sub.oracle_failures:
+                            msg = sub.oracle_failures[0][2]
+                    finally:
+                        sub.cleanup()
                 if msg is None and new is not None:
                     m = new.doc._model
                     for (sn, tn, t) in new.tables:
